@@ -149,4 +149,18 @@ var plans = map[string]Plan{
 			"a partition that the static blocking-IO order model predicts to deadlock and that does not deliver is counted under the recorded finding; a live partition that does not deliver within 5000 ticks is a failure",
 		},
 	},
+	"C12": {
+		Pkg:   "c12",
+		Tools: []string{"bondgo"},
+		Runs: []Run{
+			{Test: "^TestProps$/^compile_faithful$", Checks: checks(25, 400), Shards: shards(4, 16), Timeout: tmo(15*time.Minute, 90*time.Minute)},
+			{Test: "^TestProps$/^compile_full$", Checks: checks(13, 250), Shards: shards(4, 16), Timeout: tmo(15*time.Minute, 90*time.Minute)},
+		},
+		Assumptions: []string{
+			"the real bondgo CLI (built from /repo with -tags verif) is run as a child process under a hard 10 s deadline for three schedule plans (GOMAXPROCS x VERIF_BONDGO_SCHED) per program; a hang is classified from a goroutine dump",
+			"semantic verdicts are taken on the Go simulator only when the emitted machine uses faithfully simulated opcodes (programs that use RAM variables compile to r2m/m2r: labelled needs-hdl, termination and determinism only)",
+			"-mpm semantics are judged for argument-free go f() workers only; channel programs get termination and determinism only",
+			"inputs are constants (i2r has no handshake); output identity is the declaration order of bondgo.Output variables",
+		},
+	},
 }
